@@ -80,6 +80,14 @@ def validate_np_shim():
             if r != m:
                 return n_checked, f'arange({n})[{item!r},]: shim {m} numpy {r}'
             n_checked += 1
+    for a in range(-3, 6):
+        for b in range(-3, 6):
+            for st in (None, 1, 2, -1, -2):
+                r = (np.arange(a, b) if st is None else np.arange(a, b, st)).tolist()
+                m = list(sh.arange(a, b) if st is None else sh.arange(a, b, st))
+                if r != m:
+                    return n_checked, f'arange({a}, {b}, {st}): shim {m} numpy {r}'
+                n_checked += 1
     for n in range(0, 13):
         for k in range(1, 14):
             r = [x.tolist() for x in np.array_split(np.arange(n), k)]
